@@ -38,6 +38,7 @@ REQUIRED_TAGS = ["api", "sql", "inline-possible", "out-only", "single-chunk", "m
 
 KEY_CMP = "nodeStore.CompareAdaptive:first-chunk-only"
 KEY_CNT = "count-distinct:out-of-band-unhashable"
+KEY_JOIN = "join-eq:blob-inline-vs-out-of-band"
 
 K = 4000
 FAN = 200
@@ -238,17 +239,28 @@ def match_known(finding, case, out):
             return False
         x, y = expand(case["x"]), expand(case["y"])
         want = _sgn(x, y)
-        wrong = [c for c in a["cmp"] if c is not None and c != want]
-        if not wrong:
-            return False
         same_shape = top_level(nx) == top_level(ny) and nx > K and ny > K
-        return (not same_shape) and all(c == _sgn(x[:K], y[:K]) for c in wrong)
+        nwrong = 0
+        for idx, (lin, rin) in enumerate([(True, True), (True, False), (False, True), (False, False)]):
+            c = a["cmp"][idx]
+            if c is None or c == want:
+                continue
+            nwrong += 1
+            if idx == 0 or (idx == 3 and same_shape):
+                return False            # both inline, or two aligned trees: must be right
+            l1 = x if lin else x[:K]    # an inline side is yielded whole, a tree side yields its first leaf
+            r1 = y if rin else y[:K]
+            if c != _sgn(l1, r1):
+                return False
+        return nwrong > 0
     if finding.get("key") == KEY_CNT and case["kind"] == "sql":
         s = o.get("sql")
         if s is None:
             return False
         notes = " ".join(s.get("notes") or [])
-        if "count distinct unable to hash value" not in notes:
+        # every note must be a failed COUNT(DISTINCT ...): "count distinct unable to hash value" for out-of-band values,
+        # "string ... is too large" for values beyond 64 kB
+        if not (s.get("notes") and all(n.startswith("select count(distinct") for n in s["notes"])):
             return False
         # everything else must be as the property demands: only the COUNT(DISTINCT) answers are missing
         vals = [bytes(expand(v)) for v in case["vals"]]
@@ -259,6 +271,18 @@ def match_known(finding, case, out):
                    and (bad_in or s["distinct_in"] == d) and (bad_out or s["distinct_out"] == d) and s["order_in"] == s["order_out"]
                    and s["join"] == sum(1 for a in vals for b in vals if a == b))
         return ok_rest and (bad_in or bad_out)
+    if finding.get("key") == KEY_JOIN and case["kind"] == "sql" and case["sqlty"] == 1:
+        s = o.get("sql")
+        if s is None or s.get("notes"):
+            return False
+        vals = [bytes(expand(v)) for v in case["vals"]]
+        d = len(set(vals))
+        want = sum(1 for a in vals for b in vals if a == b)
+        # pairs whose left side (tin) is inline while the right side (tout) was forced out of band
+        mixed = sum(1 for a in vals for b in vals if a == b and 22 <= len(a) <= 2047)
+        ok_rest = (s["read_in"] and s["read_out"] and s["hash_same"] and s["groups_in"] == d and s["groups_out"] == d
+                   and s["distinct_in"] == d and s["distinct_out"] == d and s["order_in"] == s["order_out"])
+        return ok_rest and mixed > 0 and want - mixed <= s["join"] < want
     return False
 
 
